@@ -348,7 +348,9 @@ TransEnvOK(c, st, g, p) == c.fn \in Trans /\ st.grp[g].rc # Nil => p.k = st.grp[
 VARIABLES cfg, mode, st, open, cur, emitted, refEmitted, nb
 vars == <<cfg, mode, st, open, cur, emitted, refEmitted, nb>>
 
-Cur0 == [g \in Groups |-> [t |-> 0, pts |-> <<>>, all |-> <<>>, adv |-> 0]]
+(* history variables (Ref level): t/pts = the current batch or run; all = every point of the group so far  *)
+(* (kept only for streaming transforms, whose context lives as long as the group); n, adv = counters       *)
+Cur0 == [g \in Groups |-> [t |-> 0, pts |-> <<>>, all |-> <<>>, adv |-> 0, n |-> 0]]
 
 Init ==
     /\ cfg \in Cfgs /\ mode \in Modes
@@ -381,24 +383,27 @@ End ==
     /\ LET r == EndB(cfg, st, open) IN st' = r.st /\ emitted' = r.outs
     /\ refEmitted' = RefBatch(cfg, open, cur[open].t, cur[open].pts)
     /\ open' = "-"
-    /\ UNCHANGED <<cfg, mode, cur, nb>>
+    /\ cur' = [cur EXCEPT ![open].pts = <<>>]      \* history of a finished batch is not needed any more
+    /\ UNCHANGED <<cfg, mode, nb>>
 
 SPoint(g, k, v, dt) ==
     /\ mode = "stream"
     /\ LET c == cur[g]
-           newrun == c.all = <<>> \/ dt = 1
-           t == IF c.all = <<>> THEN 1 ELSE c.t + dt
+           first == c.n = 0
+           newrun == first \/ dt = 1
+           t == IF first THEN 1 ELSE c.t + dt
            run == IF newrun THEN <<>> ELSE c.pts
            p == MkPt(t, k, v, Len(run) + 1)
            r == PointS(cfg, st, g, p) IN
-       /\ (newrun /\ c.all # <<>>) => c.adv < MaxBatches
-       /\ Len(run) < MaxPts /\ Len(c.all) < MaxStream
+       /\ (newrun /\ ~first) => c.adv < MaxBatches
+       /\ Len(run) < MaxPts /\ c.n < MaxStream
        /\ TransEnvOK(cfg, st, g, p)
        /\ st' = r.st /\ emitted' = r.outs
        /\ refEmitted' = IF cfg.fn \in Trans THEN RefTransPoint(cfg, g, Append(c.all, p))
-                        ELSE IF newrun /\ c.all # <<>> THEN RefRun(cfg, g, c.t, c.pts) ELSE <<>>
-       /\ cur' = [cur EXCEPT ![g] = [t |-> t, pts |-> Append(run, p), all |-> Append(c.all, p),
-                                     adv |-> IF newrun /\ c.all # <<>> THEN c.adv + 1 ELSE c.adv]]
+                        ELSE IF newrun /\ ~first THEN RefRun(cfg, g, c.t, c.pts) ELSE <<>>
+       /\ cur' = [cur EXCEPT ![g] = [t |-> t, pts |-> Append(run, p),
+                                     all |-> IF cfg.fn \in Trans THEN Append(c.all, p) ELSE <<>>,
+                                     adv |-> IF newrun /\ ~first THEN c.adv + 1 ELSE c.adv, n |-> c.n + 1]]
     /\ UNCHANGED <<cfg, mode, open, nb>>
 
 Next ==
